@@ -19,8 +19,8 @@ def list_jobs(tier):
 
 def options(tier):
     if tier == "thorough":
-        return pipeline.Options(timeout_ms=30000, max_queries=256, unroll=8)
-    return pipeline.Options(timeout_ms=2500, max_queries=48, unroll=5, max_unknown=1, budget_s=20.0)
+        return pipeline.Options(timeout_ms=30000, max_queries=256, unroll=8, ort_reject_is_violation=True)
+    return pipeline.Options(timeout_ms=2500, max_queries=48, unroll=5, max_unknown=1, budget_s=20.0, ort_reject_is_violation=True)
 
 
 def get_program(job):
